@@ -22,16 +22,25 @@ COLS = 't1.id, t1.a, t2.id AS id2, t2.b'
 COLNAMES = ['id', 'a', 'id2', 'b']
 
 SHAPES = ['join', 'in_subquery', 'not_in_subquery', 'scalar_subquery', 'target_subquery', 'union', 'union_all', 'intersect', 'except', 'intersect_all',
-          'except_all', 'cte', 'nested', 'join_subselect', 'three', 'three_mixed', 'case_subquery', 'func_subquery', 'single_integration_join']
+          'except_all', 'cte', 'nested', 'join_subselect', 'three', 'three_mixed', 'case_subquery', 'func_subquery', 'single_integration_join',
+          'three_keys', 'three_keys_rev', 'three_star', 'in_subquery_join', 'in_subquery_join_rev', 'target_subquery_join', 'exists_subquery']
 JOINS = ['JOIN', 'INNER JOIN', 'LEFT JOIN', 'RIGHT JOIN', 'FULL JOIN', 'LEFT OUTER JOIN', 'FULL OUTER JOIN', 'CROSS JOIN', 'implicit']
 ONS = [('equi', 't1.id = t2.id'), ('equi_rconst', 't1.id = t2.id AND t2.b = 1'), ('equi_lconst', 't1.id = t2.id AND t1.a = 1'),
-       ('nonequi', 't1.a < t2.b'), ('equi_or', 't1.id = t2.id OR t1.a = t2.b'), ('rev_equi', 't2.id = t1.id'), ('equi2', 't1.id = t2.id AND t1.a = t2.b')]
+       ('nonequi', 't1.a < t2.b'), ('equi_or', 't1.id = t2.id OR t1.a = t2.b'), ('rev_equi', 't2.id = t1.id'), ('equi2', 't1.id = t2.id AND t1.a = t2.b'),
+       ('equi_not_rconst', 't1.id = t2.id AND NOT t2.b = 1'), ('not_rconst_equi', 'NOT (t2.b = 1) AND t1.id = t2.id'), ('equi_or_rconst', 't1.id = t2.id OR t2.b = 1'),
+       ('equi_or_lconst', 't1.id = t2.id OR t1.a = 1'), ('equi_constfirst', 't1.id = t2.id AND 1 = t2.b'), ('equi_rgt', 't1.id = t2.id AND t2.b > 1'),
+       ('equi_constfirst_gt', 't1.id = t2.id AND 1 < t2.b'), ('equi_risnull', 't1.id = t2.id AND t2.b IS NULL'), ('equi_rin', 't1.id = t2.id AND t2.b IN (1, 2)'),
+       ('equi_paren_or', 't1.id = t2.id AND (t2.b = 1 OR t1.a = 1)'), ('key_expr', 't1.id = t2.id + 0'), ('key_other', 't1.id = t2.b')]
 WHERES = [('none', ''), ('left', 't1.a = 1'), ('right', 't2.b = 1'), ('both', 't1.a = 1 AND t2.b = 1'), ('or', 't1.a = 1 OR t2.b = 1'),
           ('not_right', 'NOT t2.b = 1'), ('not_left', 'NOT t1.a = 1'), ('right_isnull', 't2.b IS NULL'), ('left_isnull', 't1.a IS NULL'),
           ('right_id_isnull', 't2.id IS NULL'), ('between', 't1.a BETWEEN 1 AND 2'), ('in_list', 't2.b IN (1, 2)'), ('colcol', 't1.a = t2.b'),
           ('const_left', '1 = t2.b'), ('neq', 't2.b <> 1'), ('gt', 't1.x > 10'), ('not_paren_and', 'NOT (t1.a = 1 AND t2.b = 1)'),
           ('nested_or', 't1.x > 5 AND (t1.a = 1 OR t2.b = 2)'), ('func', 'coalesce(t2.b, 0) = 0'), ('right_notnull', 't2.b IS NOT NULL'),
-          ('left_in_sub', 't1.id IN (SELECT t3.id FROM int1.t3)'), ('right_in_sub', 't2.id IN (SELECT t3.id FROM int1.t3)')]
+          ('left_in_sub', 't1.id IN (SELECT t3.id FROM int1.t3)'), ('right_in_sub', 't2.id IN (SELECT t3.id FROM int1.t3)'),
+          ('right_isnot_true', 't2.b IS NOT TRUE'), ('right_is_true', 't2.b IS TRUE'), ('right_isnot_false', 't2.b IS NOT FALSE'), ('left_isnot_true', 't1.a IS NOT TRUE'),
+          ('constfirst_lt', '1 < t2.b'), ('constfirst_ge_left', '1 >= t1.a'), ('constfirst_gt_both', '2 > t1.a AND 1 <= t2.b'), ('right_le', 't2.b <= 1'),
+          ('right_like', "t2.y LIKE 'a%'"), ('right_not_in', 't2.b NOT IN (1)'), ('not_right_isnull', 'NOT t2.b IS NULL'), ('right_between', 't2.b BETWEEN 1 AND 2'),
+          ('or_same_side', 't2.b = 1 OR t2.b = 2'), ('paren_right', '(t2.b = 1)'), ('arith_right', 't2.b + 1 = 2')]
 TARGETS = [('cols', COLS), ('star', '*'), ('count', 'count(*) AS n'), ('expr', 't1.id, t1.a, t2.id AS id2, t2.b, t1.a + t2.b AS k'),
            ('left_only', 't1.id, t1.a'), ('right_only', 't2.id AS id2, t2.b'), ('agg', 'sum(t1.x) AS s, max(t2.y) AS m'), ('distinct', 'DISTINCT t1.a, t2.b')]
 GROUPS = [('none', ''), ('left', 'GROUP BY t1.a'), ('right', 'GROUP BY t2.b'), ('having', 'GROUP BY t1.a HAVING count(*) > 1')]
@@ -160,7 +169,7 @@ def build(a):
         sql = body + tail(onames_q) + lim_sql()
     else:
         if a['join'] or a['on']:
-            if shape not in ('three', 'three_mixed', 'nested', 'single_integration_join') or a['on']:
+            if shape not in ('three', 'three_mixed', 'nested', 'single_integration_join', 'three_keys', 'three_keys_rev', 'three_star') or a['on']:
                 return None
         if a['alias'] and shape not in ('join_subselect',):
             return None
@@ -230,6 +239,43 @@ def build(a):
             names = COLNAMES + ['c']
             full = body
             sql = body + tail(['t1.id', 't1.a', 't2.id', 't2.b']) + lim_sql()
+        elif shape in ('three_keys', 'three_keys_rev', 'three_star'):
+            # keys with the same column name coming from different earlier tables / one table joined twice on different keys
+            if a['targets'] or group:
+                return None
+            if shape == 'three_keys':
+                frm = f'{t1} {j} int2.t2 ON t1.id = t2.b {j} int1.t3 ON t2.id = t3.c'
+            elif shape == 'three_keys_rev':
+                frm = f'{t1} {j} int2.t2 ON t2.b = t1.id {j} int1.t3 ON t3.c = t2.id'
+            else:
+                frm = f'{t1} {j} int2.t2 ON t1.id = t2.id {j} int1.t3 ON t1.a = t3.id'
+            body = f'SELECT t1.id, t1.a, t2.id AS id2, t2.b, t3.c FROM {frm}' + (' WHERE ' + where if where else '')
+            names = COLNAMES + ['c']
+            full = body
+            sql = body + tail(['t1.id', 't1.a', 't2.id', 't2.b']) + lim_sql()
+        elif shape in ('in_subquery_join', 'in_subquery_join_rev', 'target_subquery_join', 'exists_subquery'):
+            # a sub-query whose own FROM joins a table of the outer integration with a table of another one
+            if a['targets'] or group or wl not in ('none', 'left', 'gt'):
+                return None
+            inner = {'in_subquery_join': 'SELECT t3.id FROM int1.t3 JOIN int2.t2 ON t3.id = t2.id',
+                     'in_subquery_join_rev': 'SELECT t2.id FROM int2.t2 JOIN int1.t3 ON t3.id = t2.id',
+                     'target_subquery_join': 'SELECT max(t2.b) FROM int1.t3 JOIN int2.t2 ON t3.id = t2.id',
+                     'exists_subquery': 'SELECT t2.id FROM int2.t2 WHERE t2.b = 1'}[shape]
+            names = ['id', 'a']
+            tg = 't1.id, t1.a'
+            if shape == 'target_subquery_join':
+                tg = f't1.id, t1.a, ({inner}) AS m'
+                names = ['id', 'a', 'm']
+                conds = [where] if where else []
+            elif shape == 'exists_subquery':
+                conds = [c for c in (f'EXISTS ({inner})', where) if c]
+            else:
+                conds = [c for c in (f't1.id IN ({inner})', where) if c]
+            body = f'SELECT {tg} FROM {t1}' + (' WHERE ' + ' AND '.join(conds) if conds else '')
+            if any(p > 1 for p, d in ospec):
+                return None
+            full = body
+            sql = body + tail(['t1.id', 't1.a', 'm']) + lim_sql()
         elif shape == 'single_integration_join':
             if a['targets'] or group or wl not in ('none', 'left', 'gt', 'not_left'):
                 return None
